@@ -96,9 +96,18 @@ fn cm_value(id: u8, salt: u32) -> ctap2::credential_management::Response {
     r.rp_id_hash = Some(ctap_types::ByteArray::new([id; 32]));
     r
 }
-fn lb_value(_id: u8, _salt: u32) -> ctap2::large_blobs::Response {
+fn lb_value(id: u8, salt: u32) -> ctap2::large_blobs::Response {
     let mut r = ctap2::large_blobs::Response::default();
-    r.config = Some(ctap_types::Bytes::new());
+    // a fragment whose length varies and is unrelated to what the request asked for (as long as
+    // the configuration's fragment capacity allows; it is 0 without `large-blobs`)
+    let want = [0usize, 1, 16, 17, 64, 300, 1024, 3008][(salt % 8) as usize];
+    let mut frag = ctap_types::Bytes::new();
+    for i in 0..want {
+        if frag.push(id ^ (i as u8)).is_err() {
+            break;
+        }
+    }
+    r.config = Some(frag);
     r
 }
 fn gi_value(id: u8, salt: u32) -> ctap2::get_info::Response {
